@@ -333,6 +333,22 @@ def run(tree, rep, tier):
     # C11.R6 relies on the one-shot observer behind when_disconnected() calling back in a later turn, also when it has already fired
     from .C03 import observers_fire_eventually
     observers_fire_eventually(tree, rep, "C11.R6")
+    # the keep-alive acts on the connection in use NOW: the timer is created once and reused for every generation, so what it calls on
+    # expiry must go through the Manager (C16.R2 timer-wiring)
+    from .C16 import r2 as c16_r2
+    sub = type(rep)(rep.pid, rep.tier, rep.seed)
+    try:
+        c16_r2(tree, sub)
+    except AnalysisError:
+        pass        # a later part of that rule could not be evaluated; what it established so far stands
+    for o in sub.obligations:
+        if o["rule"] == "C16.R2" and "wired" in o["instance"]:
+            rep.obligations.append(dict(o, rule="C11.R7"))
+            rep.evaluations += 1
+    for v in sub.violations:
+        if v["key"] == "C16.R2:timer-wiring":
+            rep.violation("C11.R7", "C11.R7:timer-wiring", v["what"] + " (the Leader's timer keeps the first connection's disconnect: a later silent connection "
+                          "is never dropped, no reconnect is sent, the Follower waits forever)", v.get("site"), v.get("detail"), _count=False)
     r8(tree, rep, tier)
 
 
